@@ -63,6 +63,11 @@ def np_rows(v):
     return system, rows
 
 
+def _behavior():
+    """per-array behaviors, or None once vector.register_awkward() has installed them globally"""
+    return None if getattr(vector, "_awkward_registered", False) else vector.backends.awkward.behavior
+
+
 def ak_record_name(d, momentum):
     return ("Momentum" if momentum else "Vector") + f"{d}D"
 
@@ -77,7 +82,7 @@ def ak_flat(system, rows, momentum=False, spelling="generic", extra=None, alt=0)
             cols[k] = numpy.asarray(vals)
     if len(rows) == 0:
         cols = {k: numpy.asarray(v, dtype=numpy.float64) for k, v in cols.items()}
-    return ak.zip(cols, with_name=ak_record_name(d, momentum), behavior=vector.backends.awkward.behavior)
+    return ak.zip(cols, with_name=ak_record_name(d, momentum), behavior=_behavior())
 
 
 def ak_jagged(flat, counts):
@@ -134,6 +139,7 @@ def make(backend, system, rows, momentum=False):
 # ----------------------------------------------------------------------------- layouts
 N_ELEMS = 6
 NP_LAYOUTS = ("np1", "np2")
+NP_VIEW_LAYOUTS = ("np1v", "np2T", "np1s")
 AK_LAYOUTS = ("flat", "jagged", "nested", "optrec", "optlist", "regular")
 OPT_MASK = [False, True, False, False, True, False]  # True = missing element (optrec)
 JAG_COUNTS = [2, 0, 3, 1]
@@ -144,6 +150,8 @@ NEST_COUNTS = [2, 1, 0, 1]
 def present_indices(layout):
     if layout == "optrec":
         return [i for i, m in enumerate(OPT_MASK) if not m]
+    if layout == "np2T":
+        return [0, 2, 4, 1, 3, 5]  # C-order traversal of the transposed (3,2) base
     return list(range(N_ELEMS))
 
 
@@ -154,6 +162,10 @@ def shape_values(layout, values, as_option=True):
         return numpy.array(vals)
     if layout == "np2":
         return numpy.array(vals).reshape(2, 3)
+    if layout in ("np1v", "np1s"):
+        return numpy.array(vals)
+    if layout == "np2T":
+        return numpy.array(vals).reshape(3, 2).T
     arr = ak.Array(numpy.array(vals))
     if layout == "flat":
         return arr
@@ -178,6 +190,17 @@ def build_layout(layout, system, rows, momentum=False, spelling="generic", extra
     if layout in NP_LAYOUTS:
         a = np_array(system, rows, momentum, spelling=spelling if spelling == "momentum" else None)
         return a.reshape(2, 3) if layout == "np2" else a
+    if layout in NP_VIEW_LAYOUTS:
+        # views sharing memory with a larger live base array (aliasing between result assembly and operand storage)
+        if layout == "np1v":
+            base = np_array(system, [r for row in rows for r in (row, tuple(-7.25 for _ in row))], momentum)
+            return base[::2]
+        if layout == "np2T":
+            base = np_array(system, rows, momentum).reshape(3, 2)
+            return base.T
+        if layout == "np1s":
+            base = np_array(system, [tuple(3.5 for _ in rows[0])] * 2 + list(rows) + [tuple(1.25 for _ in rows[0])], momentum)
+            return base[2:-1]
     ex = {"charge": numpy.array([1, -1, 0, 2, -2, 1]), "tag": numpy.array([0.5, 1.5, 2.5, 3.5, 4.5, 5.5])} if extra else None
     flat = ak_flat(system, rows, momentum, spelling, ex, alt)
     if layout == "flat":
@@ -194,7 +217,7 @@ def build_layout(layout, system, rows, momentum=False, spelling="generic", extra
         j = ak.unflatten(flat, [2, 3, 1])
         name = ak_record_name(d, momentum)
         parts = [ak.to_list(j[0]), None, ak.to_list(j[1]), ak.to_list(j[2])]
-        out = ak.Array(parts, with_name=name, behavior=vector.backends.awkward.behavior)
+        out = ak.Array(parts, with_name=name, behavior=_behavior())
         return out
     raise KeyError(layout)
 
